@@ -56,6 +56,11 @@ int vw_c02_ident_state (char *buf, int len) {
         vw_snap *s = vw_find (e);
         nperm++;
         if (!s) unknown++;
+        else if (e->token & IHE_RESWORD) {
+          /* reserved words are keyword_t objects: only the common prefix (name, token, sem_value, next) exists */
+          if ((e->sem_value != s->sem || e->token != s->tok) && n < len - 200)
+            n += snprintf (buf + n, len - n, "D ident[%s]=reserved word: sem %d (fresh %d) tok %x (fresh %x)\n", e->name, e->sem_value, s->sem, (unsigned short) e->token, (unsigned short) s->tok);
+        }
         else if (e->sem_value != s->sem || e->token != s->tok || e->dn.local_num != -1 || e->dn.global_num != -1 || e->dn.function_num != -1 || e->dn.class_num != -1) {
           if (n < len - 200)
             n += snprintf (buf + n, len - n, "D ident[%s]=sem %d (fresh %d) tok %x (fresh %x) local %d global %d function %d class %d\n", e->name, e->sem_value, s->sem,
